@@ -308,3 +308,16 @@ def shrink(case, still):
         if still(trial): ops = trial["ops"]
         else: i += 1
     return dict(case, ops=ops)
+
+MANIFEST = {
+    "level_text": ("Proof. Lean 4 theorems about an executable model of UnionFind (weighted quick-union with path halving, exactly "
+                   "the code's arrays and counters) and of the priority queue: representation invariant preserved by every operation "
+                   "incl. the mutation inside queries, find terminates within fuel and returns a root, connected(x,y) <-> equivalence "
+                   "closure of the unions so far for EVERY finite history (refinement), counts/roots/components describe that "
+                   "partition, queries preserve it; queue: every pop satisfying the abstract pop contract returns a pending minimum, "
+                   "a drained queue is a permutation of the pushes, emptiness exact - for every tie-breaking. The model is tied to "
+                   "the Python classes by a history correspondence (observed after every operation) and a direct oracle."),
+    "level_note": ("Trusted: Lean kernel + propext/Classical.choice/Quot.sound; the hand-written model (checked against the code on the "
+                   "histories of each run only); Python hash/eq of the elements; heapq abstracted to 'some pending minimum'."),
+    "technique": "Lean 4 refinement proof (invariant + EqvGen spec) over an executable model; differential history correspondence",
+}
